@@ -348,6 +348,56 @@ def required_attributes(ds):
     return None, checked
 
 
+def meta_consistency(obj):
+    """the file meta information an object carries IN MEMORY names that very object (first shortcoming | None)"""
+    fm = getattr(obj, 'file_meta', None)
+    if fm is None:
+        return 'object has no file meta'
+    if str(fm.get('MediaStorageSOPInstanceUID')) != str(obj.SOPInstanceUID):
+        return (f"the object's file meta carries MediaStorageSOPInstanceUID {fm.get('MediaStorageSOPInstanceUID')} but its "
+                f'SOPInstanceUID is {obj.SOPInstanceUID}')
+    if str(fm.get('MediaStorageSOPClassUID')) != str(obj.SOPClassUID):
+        return "the object's file meta carries another SOP class than the data set"
+    if fm.get('TransferSyntaxUID') is None:
+        return "the object's file meta has no TransferSyntaxUID"
+    return None
+
+
+def plain_file_clause(obj):
+    """written the way users write (`Dataset.save_as`, no file-format enforcement - enforcement would repair the identifiers of
+    the file meta from the data set - value validation RAISE) and read back: the file names that very object"""
+    import pydicom
+    buf = io.BytesIO()
+    with strict_validation():
+        try:
+            obj.save_as(buf)
+            back = pydicom.dcmread(io.BytesIO(buf.getvalue()))
+        except Exception as e:  # noqa: BLE001
+            return f'plain save_as / dcmread failed: {type(e).__name__}: {str(e)[:200]}'
+    if str(back.SOPInstanceUID) != str(obj.SOPInstanceUID):
+        return 'SOPInstanceUID changed in the file written with plain save_as'
+    if str(back.file_meta.get('MediaStorageSOPInstanceUID')) != str(back.SOPInstanceUID):
+        return (f"file written with plain save_as: file meta carries {back.file_meta.get('MediaStorageSOPInstanceUID')}, the data "
+                f'set has {back.SOPInstanceUID}')
+    if str(back.file_meta.get('MediaStorageSOPClassUID')) != str(back.SOPClassUID):
+        return 'file written with plain save_as: file meta SOP class differs from the data set'
+    if str(back.file_meta.get('TransferSyntaxUID')) != str(obj.file_meta.get('TransferSyntaxUID')):
+        return 'file written with plain save_as: transfer syntax differs from the object'
+    return None
+
+
+def revalidate(ctx, case, name, obj, snap0, when, writable=True):
+    """an object built EARLIER, looked at again after later constructions: it equals its own snapshot (objects share no mutable
+    state: caches, class attributes, default arguments), its file meta still names it in memory and in a plainly written file"""
+    d = snap_diff(snap0, snap(obj), 'object')
+    if d:
+        ctx.fail(case, f'object altered by a later construction ({when}): {d}', site=name + '/history')
+        return
+    m = meta_consistency(obj) or (plain_file_clause(obj) if writable else None)   # (an object its own strict write refused
+    if m:                                                                           # is reported there, not here)
+        ctx.fail(case, f'{m} ({when})', site=name + '/history')
+
+
 def file_clause(obj):
     """Returns (failure text or None, bytes).  The write / read-back / identifier clauses of the property."""
     import pydicom
@@ -835,6 +885,9 @@ def _generated_uids(obj, inputs, given=()):
     return {u: kw for u, kw in mine.items() if u not in have and not u.startswith('1.2.840.10008.')}
 
 
+_HISTORY = []       # (case, subject name, object, snapshot after construction + write) of every SOP-level object of this run
+
+
 def _run_subject(ctx, idx, collect=None):
     # value validation is set to raise for the whole life of the object (building of the arguments and construction
     # included): a value that only warns when it is assigned would otherwise slip into the file unvalidated
@@ -890,9 +943,13 @@ def _run_subject_strict(ctx, idx, s, case, collect):
             ctx.fail(case, f'argument altered by the constructor: {d}', site=s['name'] + '/inputs')
     # 2. file clause
     if hasattr(obj, 'save_as') and hasattr(obj, 'SOPInstanceUID'):
+        m0 = meta_consistency(obj)
+        if m0:
+            ctx.fail(case, m0, site=s['name'] + '/file')
         msg, blob = file_clause(obj)
         if msg:
             ctx.fail(case, msg, site=s['name'] + '/file')
+        snap0 = snap(obj)         # the object as it stands after its own construction and write
         n_req = getattr(file_clause, 'last_required', 0)
         ctx.hist('required_attributes_checked', '0' if n_req == 0 else ('1-20' if n_req <= 20 else ('21-60' if n_req <= 60 else '>60')))
         # 3. identifiers generated by the library are unique per call (same arguments, second call)
@@ -921,11 +978,14 @@ def _run_subject_strict(ctx, idx, s, case, collect):
                 if d:
                     ctx.note(f"{s['name']} {s['variant']}: second construction from the same arguments differs: {d}")
                 ctx.hist('second_construction', 'differs' if d else 'same')
+                # history: the FIRST object after a second construction of the same class with the same options
+                revalidate(ctx, case, s['name'], obj, snap0, 'after a second construction with the same arguments', msg is None)
             except Exception as e:  # noqa: BLE001
                 ctx.fail(case, f'second call with the same (unaltered) arguments failed: {type(e).__name__}: {str(e)[:150]}',
                          site=s['name'] + '/second-call')
         if collect is not None:
             collect.append((case, obj, blob))
+            _HISTORY.append((case, s['name'], obj, snap0, msg is None))
     else:
         # content-level objects: the same file clause, each one carried inside a minimal file-format data set
         for k, part in enumerate(obj if isinstance(obj, list) else [obj]):
@@ -1124,9 +1184,17 @@ def _objects(ctx):
     logging.disable(logging.CRITICAL)
     warnings.simplefilter('ignore')
     built = []
+    del _HISTORY[:]
     n = ctx.n(140, 2400)
     for idx in range(n):
         _run_subject(ctx, idx, built)
+    # histories: every object built so far, looked at again after ALL later constructions (same and other classes, same and
+    # other options, different identifiers) - before any converter is let loose on them
+    with strict_validation():
+        for case, name, obj, snap0, writable in _HISTORY:
+            revalidate(ctx, case, name, obj, snap0, 'at the end of the history of constructions', writable)
+    ctx.hist('history_revalidated', len(_HISTORY))
+    del _HISTORY[:]
     # converters on everything the constructors produced
     conv = _converter_classes()
     seen_per = {}
